@@ -552,6 +552,41 @@ theorem c18_private_save_load_text (suites : List Suite) (reg : List (Str × Sui
     simp only [privCfgOf, Toml.normPriv, hsv, loadCothority, hidem, Option.map_some, Option.getD_some]
     rw [parseServices_perm hperm hnd]
 
+/-- **the URL a server announces** (`GetServerIdentity`): the configured URL when there is one or when the
+configuration has no WebSocket TLS **key**; else `https://<host>:<port+1>` of its address.  The certificate entry plays
+no part (it is not even a field of the model's configuration): a key without certificate still derives the URL. -/
+theorem c18_url_rule (suites : List Suite) (reg : List (Str × Suite)) (hc : PrivCfg) (si : ServerId)
+    (h : getServerIdentity suites reg hc = .ok si) :
+    ((hc.url ≠ [] ∨ hc.wsKey = []) → si.url = hc.url) ∧
+    (hc.url = [] → hc.wsKey ≠ [] → ∃ p, C20.atoi ((C20.port hc.address).getD []) = some p ∧
+        si.url = httpsPrefix ++ (C20.host hc.address).getD [] ++ 58 :: fmtInt (p + 1)) := by
+  unfold getServerIdentity at h
+  split at h; · cases h
+  split at h; · cases h
+  split at h; · cases h
+  split at h; · cases h
+  simp only at h
+  split at h
+  · rename_i hk
+    split at h
+    · rename_i hu
+      cases h
+      exact ⟨fun _ => rfl, fun e => absurd e hu⟩
+    · rename_i hu
+      have hu' : hc.url = [] := by simpa using hu
+      split at h
+      · cases h
+      · rename_i p hp
+        cases h
+        refine ⟨fun c => ?_, fun _ _ => ⟨p, hp, rfl⟩⟩
+        rcases c with c | c
+        · exact absurd hu' c
+        · exact absurd c hk
+  · rename_i hk
+    cases h
+    have hk' : hc.wsKey = [] := by simpa using hk
+    exact ⟨fun _ => rfl, fun _ c => absurd hk' c⟩
+
 /-! ### what was read stays what was read: rosters made from parts of a group's list
 
 `Model/C18Slices.lean`: slices over a heap of arrays, `onet.NewRoster` (copies its argument into a fresh array) and
